@@ -53,7 +53,7 @@ func c17SP() *saml2.SAMLServiceProvider {
 	return sp
 }
 
-var c17Ops = []string{"SigningContext", "BuildAuthRequest", "BuildLogoutRequestDocument", "BuildLogoutResponseDocument", "BuildAuthURLRedirect", "ValidateEncodedResponse(A)", "ValidateEncodedResponse(B)", "RetrieveAssertionInfo(A)", "Metadata", "ValidateLogoutRequest", "GetSigningCertBytes", "BuildAuthBodyPost(relay-one)", "BuildAuthBodyPost(relay-two)", "BuildAuthURL(relay-one)"}
+var c17Ops = []string{"SigningContext", "BuildAuthRequest", "BuildLogoutRequestDocument", "BuildLogoutResponseDocument", "BuildAuthURLRedirect", "ValidateEncodedResponse(A)", "ValidateEncodedResponse(B)", "RetrieveAssertionInfo(A)", "Metadata", "ValidateLogoutRequest", "GetSigningCertBytes", "BuildAuthBodyPost(relay-one)", "BuildAuthBodyPost(relay-two)", "BuildAuthURL(relay-one)", "BuildLogoutBodyPost", "BuildLogoutResponseBodyPost", "BuildLogoutURLRedirect", "ValidateLogoutResponse", "DecodeUnverifiedBaseResponse"}
 
 var (
 	c17Once                        sync.Once
@@ -181,6 +181,44 @@ func c17Do(sp *saml2.SAMLServiceProvider, op int) (o c17Obs) {
 			o.Err = err.Error()
 		}
 		o.Text = u
+	case "BuildLogoutBodyPost":
+		d, err := sp.BuildLogoutRequestDocument("alice@example.com", "_s1")
+		if err == nil {
+			o.Bytes, err = sp.BuildLogoutBodyPostFromDocument("logout-relay", d)
+		}
+		if err != nil {
+			o.Err = err.Error()
+		}
+	case "BuildLogoutResponseBodyPost":
+		d, err := sp.BuildLogoutResponseDocument(saml2.StatusCodeSuccess, "_r1")
+		if err == nil {
+			o.Bytes, err = sp.BuildLogoutResponseBodyPostFromDocument("response-relay", d)
+		}
+		if err != nil {
+			o.Err = err.Error()
+		}
+	case "BuildLogoutURLRedirect":
+		d, err := sp.BuildLogoutRequestDocumentNoSig("alice@example.com", "_s1")
+		if err == nil {
+			o.Text, err = sp.BuildLogoutURLRedirect("logout-url-relay", d)
+		}
+		if err != nil {
+			o.Err = err.Error()
+		}
+	case "ValidateLogoutResponse":
+		r, err := sp.ValidateEncodedLogoutResponsePOST(c17LogoutResponse())
+		if err != nil {
+			o.Err = err.Error()
+		} else {
+			o.Text = fmt.Sprint(r.ID, r.SignatureValidated, r.InResponseTo)
+		}
+	case "DecodeUnverifiedBaseResponse":
+		r, err := saml2.DecodeUnverifiedBaseResponse(c17MsgB)
+		if err != nil {
+			o.Err = err.Error()
+		} else {
+			o.Text = fmt.Sprint(r.ID, r.InResponseTo, r.Destination, r.Issuer.Value)
+		}
 	case "GetSigningCertBytes":
 		b, err := sp.GetSigningCertBytes()
 		if err != nil {
@@ -285,6 +323,57 @@ func c17Judge(o c17Obs) string {
 			return "SAMLRequest field is not base64"
 		}
 		return verifyDoc(string(raw), "AuthnRequest")
+	case "BuildLogoutBodyPost", "BuildLogoutResponseBodyPost":
+		want, field, kind := "logout-relay", "SAMLRequest", "LogoutRequest"
+		if c17Ops[o.Op] == "BuildLogoutResponseBodyPost" {
+			want, field, kind = "response-relay", "SAMLResponse", "LogoutResponse"
+		}
+		toks, err := recipient.TokenizeHTML(string(o.Bytes))
+		if err != nil {
+			return "returned page does not tokenize: " + err.Error()
+		}
+		relay, msg := "", ""
+		for _, t := range toks {
+			if t.Kind == "start" && t.Name == "input" {
+				var name, value string
+				for _, a := range t.Attrs {
+					if a.Name == "name" {
+						name = a.Value
+					}
+					if a.Name == "value" {
+						value = a.Value
+					}
+				}
+				if name == "RelayState" {
+					relay = value
+				}
+				if name == field {
+					msg = value
+				}
+			}
+		}
+		if relay != want {
+			return fmt.Sprintf("returned page carries RelayState %q, the caller passed %q", relay, want)
+		}
+		raw, err := base64Decode(msg)
+		if err != nil {
+			return field + " field is not base64"
+		}
+		return verifyDoc(string(raw), kind)
+	case "BuildLogoutURLRedirect":
+		_, params := recipient.SplitURL(o.Text)
+		alg, relay := "", ""
+		for _, p := range params {
+			if p.RawName == "SigAlg" {
+				alg, _ = recipient.PctDecode(p.RawValue)
+			}
+			if p.RawName == "RelayState" {
+				relay = p.RawValue
+			}
+		}
+		if alg != c17Alg || relay != "logout-url-relay" {
+			return fmt.Sprintf("logout redirect carries SigAlg %q RelayState %q", alg, relay)
+		}
 	case "BuildAuthURL(relay-one)":
 		_, params := recipient.SplitURL(o.Text)
 		ok := false
@@ -340,6 +429,8 @@ func c17Scenarios(thorough bool) []c17Scenario {
 		{"3 threads: SigningContext || BuildAuthRequest || Validate(A)", [][]int{{o("SigningContext")}, {o("BuildAuthRequest")}, {o("ValidateEncodedResponse(A)")}}},
 		{"3 threads: GetSigningCertBytes;BuildLogoutRequestDocument || Metadata || RetrieveAssertionInfo(A)", [][]int{{o("GetSigningCertBytes"), o("BuildLogoutRequestDocument")}, {o("Metadata")}, {o("RetrieveAssertionInfo(A)")}}},
 		{"BuildAuthBodyPost(relay-one) || BuildAuthBodyPost(relay-two);BuildAuthURL", [][]int{{o("BuildAuthBodyPost(relay-one)")}, {o("BuildAuthBodyPost(relay-two)"), o("BuildAuthURL(relay-one)")}}},
+		{"BuildLogoutBodyPost || BuildLogoutResponseBodyPost;BuildLogoutURLRedirect", [][]int{{o("BuildLogoutBodyPost")}, {o("BuildLogoutResponseBodyPost"), o("BuildLogoutURLRedirect")}}},
+		{"3 threads: ValidateLogoutResponse || DecodeUnverifiedBaseResponse || ValidateLogoutRequest", [][]int{{o("ValidateLogoutResponse")}, {o("DecodeUnverifiedBaseResponse")}, {o("ValidateLogoutRequest")}}},
 	}
 	if thorough {
 		s = append(s,
@@ -594,6 +685,18 @@ func c17HistStep(sp *saml2.SAMLServiceProvider, op int, st *c17HistState) string
 	return ""
 }
 
+var c17LROnce sync.Once
+var c17LRMsg string
+
+func c17LogoutResponse() string {
+	c17LROnce.Do(func() {
+		l := idp.DefaultLogout("LogoutResponse")
+		l.Sign = idp.SignSpec{Key: "K3"}
+		c17LRMsg = idp.RenderLogout(l)
+	})
+	return c17LRMsg
+}
+
 var c17TamperedOnce sync.Once
 var c17TamperedMsg string
 
@@ -776,7 +879,7 @@ func c17Run(r *mc.Run) {
 	if r.Thorough() {
 		bound = 3
 	}
-	r.Rule = "(a) E-SCHED: every interleaving with <= 2 (quick) / <= 3 (thorough) preemptions (unbounded for the first-use race) of 10 (thorough 12) scenarios of 2-3 managed goroutines x 1-2 operations out of 14 on one shared SP with a non-default algorithm and canonicaliser, on an overlay build whose scheduling points are the sync shim operations plus a yield before every statement touching a written package-level variable or written SAMLServiceProvider field; oracle: no deadlock/panic, every call returns what it returns alone on a fresh SP, SigningContext fully configured when observed. (b) E-BFS over call histories: all sequences up to depth 3 (quick) / 4 (thorough) over 11 operations incl. scribbling over the previous result; deep reflective snapshot of the configuration unchanged, outcome equal to a fresh instance, and every result handed out earlier still unchanged after every later call. (c) free-running -race pass of the same bodies (sampling; supporting). non-trivial = an execution with at least one preemption, or a history of length >= 2; distinct = distinct schedule / history"
+	r.Rule = "(a) E-SCHED: every interleaving with <= 2 (quick) / <= 3 (thorough) preemptions (unbounded for the first-use race) of 12 (thorough 14) scenarios of 2-3 managed goroutines x 1-2 operations out of 19 on one shared SP with a non-default algorithm and canonicaliser, on an overlay build whose scheduling points are the sync shim operations plus a yield before every statement touching a written package-level variable or written SAMLServiceProvider field; oracle: no deadlock/panic, every call returns what it returns alone on a fresh SP, SigningContext fully configured when observed. (b) E-BFS over call histories: all sequences up to depth 3 (quick) / 4 (thorough) over 11 operations incl. scribbling over the previous result; deep reflective snapshot of the configuration unchanged, outcome equal to a fresh instance, and every result handed out earlier still unchanged after every later call. (c) free-running -race pass of the same bodies (sampling; supporting). non-trivial = an execution with at least one preemption, or a history of length >= 2; distinct = distinct schedule / history"
 	r.Assume("scheduling points are sufficient only together with the race pass (c), which is sampling", "the overlay is regenerated from /repo's working tree on every run (instr report in evidence)")
 	if b, err := os.ReadFile(os.Getenv("VERIF_INSTR_REPORT")); err == nil {
 		var rep map[string]interface{}
